@@ -23,10 +23,11 @@ const (
 	KeyBoth                // field and setter, same key
 	KeyTLS                 // field holding a dsig.TLSCertKeyStore
 	KeyBothDiffer          // setter holds the key; the deprecated field holds another one (setter wins)
+	KeyBothDifferTLS       // as KeyBothDiffer, the field being a dsig.TLSCertKeyStore
 )
 
 func (k KeyStyle) String() string {
-	return [...]string{"none", "field", "setter", "both", "tls", "both-differ"}[k]
+	return [...]string{"none", "field", "setter", "both", "tls", "both-differ", "both-differ-tls"}[k]
 }
 
 // SPConfig is the drawn configuration of one service provider node. Build turns it into
@@ -275,10 +276,13 @@ func applyKeyRaw(sp *saml2.SAMLServiceProvider, st KeyStyle, keyIdx int, cert *C
 			return err
 		}
 		return setter()
-	case KeyBothDiffer:
+	case KeyBothDiffer, KeyBothDifferTLS:
 		other := Key((keyIdx + 1) % NumRSA2048)
 		oc := MintCert(other.Idx, cert.X509.NotBefore, cert.X509.NotAfter, 9)
-		ks := &FieldKeyStore{Key: other.RSA, Cert: oc.DER}
+		var ks dsig.X509KeyStore = &FieldKeyStore{Key: other.RSA, Cert: oc.DER}
+		if st == KeyBothDifferTLS {
+			ks = dsig.TLSCertKeyStore(tls.Certificate{Certificate: [][]byte{oc.DER}, PrivateKey: other.Signer})
+		}
 		if signing {
 			sp.SPSigningKeyStore = ks
 		} else {
